@@ -1,8 +1,11 @@
 (* C03 — Lines break only where breaking is allowed.  Property theorems only.
-   Proved: the candidates come from the segmenter's flags (all attribute lists).  The full line_end_allowed is FALSE of the
-   faithful model on the truncated line (Findings/Wrap.v: f8_refuted); the non-truncated statement needs the same breaker
-   ordering invariant as C02 and is covered by the oracle check_break_positions only. *)
-From TV Require Import Model.Wrap Spec.Wrap Proofs.Wrap.
+   Proved: the candidates come from the segmenter's flags (all attribute lists); a candidate line that is not rejected ends
+   exactly one past its break option; a required option that fits ends the line at once.  The full line_end_allowed is FALSE
+   of the faithful model on the truncated line (Findings/Wrap.v: f8_refuted).  NOT proved (oracle check_break_positions
+   only): the global statements "every returned line end is a permitted position" for non-truncated lines (needs: the option
+   handed out by the breaker from its unused registers carries the flags of a raw read, and is_valid_sound composed with the
+   store-structure invariant) and "no returned line spans a mandatory boundary that is a cluster boundary". *)
+From TV Require Import Model.Wrap Spec.Wrap Proofs.Wrap Proofs.WrapLines.
 
 (* every UAX #14 candidate the breaker produces is the rune before a line boundary of the segmenter, candidates come
    in increasing order without skipping a boundary, and a candidate is required only at a mandatory boundary *)
@@ -29,6 +32,45 @@ Theorem line_end_at_most_option_partial : forall n w opt lc w' r cand,
   exists e, chain (w_start w') (s_alt (w_sc w') ++ [cand]) e /\ e <= fst opt + 1.
 Proof. intros n w opt lc w' r cand HI H N. destruct (pbo_ok n w opt lc w' r cand HI H) as (_ & _ & X). auto. Qed.
 Print Assumptions line_end_at_most_option_partial.
+
+(* a candidate that processBreakOption does not reject, from a state whose candidate prefix ends at or before the option
+   (the ordering the loops maintain: Proofs/WrapLines.v OrdO/OrdI), is non-empty and the candidate line ends EXACTLY one
+   past the option: a line recorded through markCandidateBest(cand) ends right after an option of the breaker *)
+Theorem candidate_line_ends_after_option : forall n w opt lc w' r cand,
+  Inv n w -> fst opt < n ->
+  (s_alt (w_sc w) <> [] -> lend (w_start w) (s_alt (w_sc w)) <= fst opt) ->
+  process_break_option w opt lc = Ok (w', r, cand) -> r <> BreakInvalid ->
+  w_start w <= fst opt /\ 0 < o_cnt cand /\ chain (w_start w') (s_alt (w_sc w') ++ [cand]) (fst opt + 1).
+Proof.
+  intros n w opt lc w' r cand HI Ho Hord H Hr.
+  destruct (pbo_strong n w opt lc w' r cand HI Ho Hord H) as (_ & _ & X & _). auto.
+Qed.
+Print Assumptions candidate_line_ends_after_option.
+
+(* mandatory_break_ends_line (partial): at the top of the UAX #14 loop of wrapNextLine (state satisfying the loop invariant
+   JT and the ordering OrdO), when the breaker hands out a required option and processBreakOption answers "fits" (the option
+   is valid, i.e. not fused into a cluster, and within the width), the call leaves the loop at once, not done, with the line
+   alt ++ [cand] whose last piece is non-empty and which ends exactly one past the required option.
+   Missing for the full statement: that the required flag of an option re-issued from unusedWordBreak is the flag of a
+   mandatory boundary, and the global form over returned lines (no line spans a valid mandatory break). *)
+Theorem mandatory_break_ends_line_partial : forall n fuel w lc b1 opt w3 cand,
+  JT n w -> OrdO w ->
+  next_word_break (w_br w) = (b1, Some opt) -> snd opt = true ->
+  process_break_option (set_br (checkpoint w) b1) opt lc = Ok (w3, Fits, cand) ->
+  outer_loop (S fuel) w lc = Ok (mark_best w3 [cand], false)
+  /\ s_best (w_sc (mark_best w3 [cand])) = Some (s_alt (w_sc w3) ++ [cand])
+  /\ 0 < o_cnt cand /\ chain (w_start w) (s_alt (w_sc w3) ++ [cand]) (fst opt + 1)
+  /\ best_end (mark_best w3 [cand]) = fst opt + 1.
+Proof. exact required_fits_ends_line. Qed.
+Print Assumptions mandatory_break_ends_line_partial.
+
+(* non-vacuity: "a LF b": the option after the line feed is required, fits at width 100, and the first call returns [0,2) *)
+Example mandatory_break_example :
+  let st := [[mkGlyph 0 1 1 64 64 0 0 0; mkGlyph 1 1 1 0 0 0 0 0; mkGlyph 2 1 1 64 64 0 0 0]; []] in
+  let w := prepare (w_zero st) cfg_zero [4; 4; 7; 7] [mkOut 128 0 0 3 0 0 3 0] 0 0 in
+  snd (next_word_break (w_br w)) = Some (1, true)
+  /\ exists w' l d, wrap_next_line w 100 = Ok (w', mkWrapped (Some l) 0 2, d) /\ d = false.
+Proof. vm_compute. split; [reflexivity|]. eexists _, _, _. split; reflexivity. Qed.
 
 Example word_option_example :
   fst (snd (next_word_raw (new_breaker [4; 4; 5; 4; 7])), fst (next_word_raw (new_breaker [4; 4; 5; 4; 7]))) = Some (1, false).
